@@ -104,7 +104,7 @@ OrderProgs == {[vars |-> ds, stmts |-> <<OrderStmt>>] : ds \in {<<BalDecl, D("ac
 
 \* ---- every allotment of up to three clauses over {1/2, 2/3, remaining, $p}, on either side (sums below, at and above
 \*      one, `remaining` anywhere and repeated, the same variable twice)
-ClauseP == {P(1, 2), P(2, 3), Rem, Var("p")}
+ClauseP == {P(1, 2), P(2, 3), Rem, Var("p"), [k |-> "portion", n |-> 1, d |-> 2, lex |-> "50.0%"]}     \* (a half, also as a percentage with a zero decimal)
 AllotSeqs == UNION {[1..n -> ClauseP] : n \in 1..3}
 SrcOfIdx(i) == LeafL(IF i = 1 THEN "a" ELSE IF i = 2 THEN "b" ELSE "c")
 AllotProgs == {[vars |-> <<D("portion", "p")>>,
